@@ -37,7 +37,7 @@ pub struct DrcpProp;
 
 fn lit_strategy() -> BoxedStrategy<i32> {
     prop_oneof![
-        6 => (1i32..=50).prop_flat_map(|v| prop_oneof![Just(v), Just(-v)]),
+        6 => (1i32..=50, any::<bool>()).prop_map(|(v, neg)| if neg { -v } else { v }),
         1 => prop_oneof![Just(1), Just(-1), Just(i32::MAX), Just(-i32::MAX), Just(i32::MIN), Just(i32::MAX - 1)],
         1 => any::<i32>().prop_map(|v| if v == 0 { 1 } else { v }),
     ]
@@ -49,7 +49,18 @@ fn id_strategy() -> BoxedStrategy<u64> {
 }
 
 fn ident_strategy() -> BoxedStrategy<String> {
-    "[A-Za-z_][A-Za-z0-9_]{0,12}".boxed()
+    // [A-Za-z_][A-Za-z0-9_]{0,12}, built from raw choices (regex strategies fork the RNG, which starves the
+    // pass-through RNG of the fuzz target)
+    const FIRST: &[u8] = b"ABCDEFGHIJKLMNOPQRSTUVWXYZabcdefghijklmnopqrstuvwxyz_";
+    const REST: &[u8] = b"ABCDEFGHIJKLMNOPQRSTUVWXYZabcdefghijklmnopqrstuvwxyz_0123456789";
+    (any::<u16>(), proptest::collection::vec(any::<u16>(), 0..=12))
+        .prop_map(|(f, rest)| {
+            let mut s = String::new();
+            s.push(FIRST[pick(f, FIRST.len())] as char);
+            s.extend(rest.iter().map(|r| REST[pick(*r, REST.len())] as char));
+            s
+        })
+        .boxed()
 }
 
 fn step_strategy() -> BoxedStrategy<StepSpec> {
